@@ -242,8 +242,13 @@ func (vm *VM) generalIndirect(r int8) reflect.Value {
 		panic(errNilPointer)
 	}
 	elem := v.Elem()
-	if elem.Kind() == reflect.Func {
+	switch elem.Kind() {
+	case reflect.Func:
 		return reflect.ValueOf(&callable{native: NewNativeFunction("", "", elem)})
+	case reflect.Interface:
+		// A register holds an interface value as its dynamic value, and
+		// the nil interface as the invalid reflect.Value.
+		return elem.Elem()
 	}
 	return elem
 }
